@@ -40,7 +40,7 @@ def run_group(ctx, rule, methods, field_filter, what, returns=True, appends=True
             raise AnalysisError(f"anchor {m} vanished: its reviewed wiring cannot be compared (re-review and regenerate sa/wiring_ref.json)")
         if m not in ref:
             has = [r for r in cur[m]["records"] if any(field_filter(r[0], k) for k in r[1]) and (label_filter is None or label_filter(r[0]))]
-            if has or (returns and cur[m]["returns"]):
+            if has or (returns and any(r.startswith(("new:", "_parse_")) for r in cur[m]["returns"])):
                 raise AnalysisError(f"{m} builds nodes but has no reviewed wiring in sa/wiring_ref.json (new or renamed production: review and regenerate)")
             continue
         rm = {"records": [r for r in ref[m]["records"] if label_filter is None or label_filter(r[0])], "returns": ref[m]["returns"], "appends": ref[m]["appends"]}
